@@ -533,68 +533,30 @@ def subset_ragged_char_column(c):
 
 
 # ------------------------------------------------------------------------------------------ union / subset helper
-def _assumed_get_row(c, tname, err):
-    self_, idx, rowp = c.arg("self"), c.arg("index"), c.arg("row")
-    h = c.old
-    c.requires(z3.And(z3.Not(h.isnull(self_)), z3.Not(h.isnull(rowp)), h.len(rowp) >= 1))
-    n = h.get(self_, "num_rows")
-    c.ensures(lambda: (c.result == 0) == z3.And(0 <= idx, idx < n))
-    c.ensures(lambda: z3.Or(c.result == 0, c.result == getattr(c.E, err)))
-    c.assigns(rowp)
-
-
-@contract("tables.c", "tsk_individual_table_get_row", ["self", "index", "row"], assumed=True)
-def individual_get_row(c):
-    _assumed_get_row(c, "individuals", "TSK_ERR_INDIVIDUAL_OUT_OF_BOUNDS")
-
-
-@contract("tables.c", "tsk_population_table_get_row", ["self", "index", "row"], assumed=True)
-def population_get_row(c):
-    _assumed_get_row(c, "populations", "TSK_ERR_POPULATION_OUT_OF_BOUNDS")
-
-
-@contract("tables.c", "tsk_individual_table_add_row",
-          ["self", "flags", "location", "location_length", "parents", "parents_length", "metadata", "metadata_length"],
-          assumed=True, call_only=True)
-def individual_add_row(c):
-    self_ = c.arg("self")
-    h = c.old
-    c.requires(z3.Not(h.isnull(self_)))
-    n = h.get(self_, "num_rows")
-    c.ensures(lambda: z3.Or(c.result == n, c.result == c.E.TSK_ERR_NO_MEMORY, c.result == c.E.TSK_ERR_TABLE_OVERFLOW,
-                            c.result == c.E.TSK_ERR_COLUMN_OVERFLOW))
-    c.ensures(lambda: z3.And(n >= 0, n <= MAX_ROWS))
-    c.assigns(self_)
-
-
-@contract("tables.c", "tsk_population_table_add_row", ["self", "metadata", "metadata_length"], assumed=True, call_only=True)
-def population_add_row(c):
-    self_ = c.arg("self")
-    h = c.old
-    c.requires(z3.Not(h.isnull(self_)))
-    n = h.get(self_, "num_rows")
-    c.ensures(lambda: z3.Or(c.result == n, c.result == c.E.TSK_ERR_NO_MEMORY, c.result == c.E.TSK_ERR_TABLE_OVERFLOW,
-                            c.result == c.E.TSK_ERR_COLUMN_OVERFLOW))
-    c.ensures(lambda: z3.And(n >= 0, n <= MAX_ROWS))
-    c.assigns(self_)
-
-
 @contract("tables.c", "tsk_table_collection_add_and_remap_node",
-          ["self", "other", "node_id", "individual_map", "population_map", "node_map", "add_populations"], cct=0)
+          ["self", "other", "node_id", "individual_map", "population_map", "node_map", "add_populations"])
 def add_and_remap_node(c):
+    from .tables_rows_generic import View, wide_ok
     self_, other, node_id = c.arg("self"), c.arg("other"), c.arg("node_id")
     imap, pmap, nmap = c.arg("individual_map"), c.arg("population_map"), c.arg("node_map")
     h = c.old
     E = c.E
     c.requires(z3.And(z3.Not(h.isnull(self_)), z3.Not(h.isnull(other))))
-    S = TC(h, self_)
     Ot = TC(h, other)
     VO = NodeView(h, h.sub(other, "nodes"))
     VS = NodeView(h, h.sub(self_, "nodes"))
     c.requires(VO.rep())
     c.requires(VS.rep())
+    # the individual and population tables of both collections satisfy their representation invariants (the
+    # postcondition of every table operation under C13)
+    OI, OP = View(h, h.sub(other, "individuals"), "individuals"), View(h, h.sub(other, "populations"), "populations")
+    SI, SP = View(h, h.sub(self_, "individuals"), "individuals"), View(h, h.sub(self_, "populations"), "populations")
+    for V_ in (OI, OP, SI, SP):
+        c.requires(V_.rep())
+    # wide ragged columns: both tables together stay below 2^57 elements (byte sizes representable)
+    for col in ("location", "parents"):
+        c.requires(wide_ok(SI, col, OI.length(col)))
     ni, npop, nn = Ot.individuals.n, Ot.populations.n, Ot.nodes.n
-    c.requires(z3.And(ni >= 0, ni <= MAX_ROWS, npop >= 0, npop <= MAX_ROWS))
     for p, n_ in ((imap, ni), (pmap, npop), (nmap, nn)):
         c.requires(z3.Implies(n_ > 0, z3.And(z3.Not(h.isnull(p)), p.off == 0, h.len(p) >= n_)))
     # other has passed check_integrity: node rows reference existing individuals / populations
@@ -608,6 +570,10 @@ def add_and_remap_node(c):
     c.assigns(self_)
     for col in NODE_FIXED + ["metadata", "metadata_offset"]:
         c.assigns(h.get(h.sub(self_, "nodes"), col))
+    for (tn, cols) in (("individuals", ["flags", "location", "location_offset", "parents", "parents_offset", "metadata", "metadata_offset"]),
+                       ("populations", ["metadata", "metadata_offset"])):
+        for col in cols:
+            c.assigns(h.get(h.sub(self_, tn), col))
     c.assigns(imap)
     c.assigns(pmap)
     c.assigns(nmap)
